@@ -70,6 +70,15 @@ if TYPE_CHECKING:
     from .._core import Zeroconf
 
 
+def _without_scope_id(record: DNSRecord) -> DNSRecord:
+    """Return an address record without the scope id of the interface it was received on."""
+    if isinstance(record, DNSAddress) and record.scope_id is not None:
+        return DNSAddress(
+            record.name, record.type, record.class_, record.ttl, record.address, created=record.created
+        )
+    return record
+
+
 class _AnswerStrategy:
 
     __slots__ = ("question", "strategy_type", "types", "services")
@@ -326,6 +335,12 @@ class QueryHandler:
 
         query_res = _QueryResponse(self.cache, questions, is_probe, msg.now)
         known_answers = DNSRRSet(answers)
+        # Known AAAA answers received on an IPv6 socket carry the scope id of the
+        # receiving interface, the address records we answer with never do: our own
+        # records are compared with the known answers without it.
+        own_known_answers = known_answers
+        if msg.scope_id is not None:
+            own_known_answers = DNSRRSet([_without_scope_id(answer) for answer in answers])
         known_answers_set: Optional[Set[DNSRecord]] = None
         now = msg.now
         for strategy in strategies:
@@ -336,7 +351,7 @@ class QueryHandler:
                     known_answers_set = known_answers.lookup_set()
                 self.question_history.add_question_at_time(question, now, known_answers_set)
             answer_set = self._answer_question(
-                question, strategy.strategy_type, strategy.types, strategy.services, known_answers
+                question, strategy.strategy_type, strategy.types, strategy.services, own_known_answers
             )
             if not ucast_source and is_unicast:
                 query_res.add_qu_question_response(answer_set)
